@@ -192,6 +192,20 @@ def observe_child(cli, file_text, config_arg, fault):
             obs["code_action"] = ca if ca is None else len(ca)
         wsym = req("workspace/symbol", {"query": ""})
         obs["workspace_symbols"] = sorted(x["name"] for x in wsym) if isinstance(wsym, list) else wsym
+        if top_indexed(obs):
+            # the same questions after the document was indexed again inside the server process (an edit): options that shape the index
+            # (keyword sorting, hover language, ...) must still be the effective ones
+            try:
+                with open(os.path.join(root, "top.f90")) as fh:
+                    cur = fh.read()
+                srv.handle({"jsonrpc": "2.0", "method": "textDocument/didChange", "params": {"textDocument": {"uri": top}, "contentChanges": [{"text": cur + "! edited\n"}]}})
+                h = req("textDocument/hover", {"textDocument": {"uri": top}, "position": {"line": 3, "character": 45}})
+                obs["hover_var_after_edit"] = h["contents"]["value"] if isinstance(h, dict) and "contents" in h else h
+                h = req("textDocument/hover", {"textDocument": {"uri": top}, "position": {"line": 16, "character": 11}})
+                obs["hover_sub_after_edit"] = h["contents"]["value"] if isinstance(h, dict) and "contents" in h else h
+                obs["signature_after_edit"] = req("textDocument/signatureHelp", {"textDocument": {"uri": top}, "position": {"line": 16, "character": 24}})
+            except OSError:
+                pass
         return obs
     finally:
         ws.close()
